@@ -33,14 +33,15 @@ func (eng) Rule() string {
 		"every earlier channel/ctx closed, each dispose handler ran exactly once, no handlerLoop goroutine left (goroutine dump), every " +
 		"later public call returns a neutral value without panicking or blocking, and every channel / state context handed to the subscribers " +
 		"racing the disposal is closed; (latesub) a WhenTime/WhenTicks/WhenQuery call parked at sub.checked (after its disposed check) while the " +
-		"machine is disposed completely returns a closed channel; (faultdisp) the same after one handler (AEnter or AState) " +
+		"machine is disposed completely returns a closed channel (also WhenQueue); (disphandler) a registered dispose handler calls one of 12 " +
+		"methods of its machine; (timeoutdisp) a handler overruns HandlerTimeout while a graceful Dispose waits; (faultdisp) the same after one handler (AEnter or AState) " +
 		"panicked, overran HandlerTimeout and returned late, or overran and then panicked, disposed while the machine waits for the " +
 		"handler's deadline or after it forked a new loop. Evaluation = one post-dispose assertion; distinct " +
 		"non-trivial = distinct (dispose mode, origin, landing point, handlers, #subscriptions>0)."
 }
 func (eng) Assumptions() []string {
 	return []string{"DisposeForce only on idle machines (documented to panic otherwise); what subscribers racing a DisposeForce are handed is not judged (it skips their locks)",
-		"a machine without a handler loop is not disposed by parent-ctx cancelation (no goroutine watches it): that mode is only used with handlers bound",
+		"a machine without a handler loop is not disposed by parent-ctx cancelation (no goroutine watches it: recorded as a known finding by the case noloop-parentctx); the PRNG scenarios use that mode only with handlers bound",
 		"WhenDisposed still open after the watchdog is a violation only when the goroutine dump shows no doDispose frame (stable), else inconclusive"}
 }
 
@@ -56,9 +57,18 @@ func (eng) Cases(seed uint64, tier string) []core.CaseDesc {
 	for i := 0; i < n; i++ {
 		cs = append(cs, core.CaseDesc{ID: fmt.Sprintf("disp/%05d", i), Kind: "disp", Seed: seed*1000003 + uint64(i)})
 	}
-	for i := 0; i < 6; i++ {
+	for i := 0; i < 8; i++ {
 		cs = append(cs, core.CaseDesc{ID: fmt.Sprintf("latesub/%02d", i), Kind: "latesub", Seed: uint64(i)})
 	}
+	// a dispose handler that uses the machine; a handler timeout firing while the
+	// machine is being disposed; a machine without handlers under a parent ctx
+	for i := 0; i < 12; i++ {
+		cs = append(cs, core.CaseDesc{ID: fmt.Sprintf("disphandler/%02d", i), Kind: "disphandler", Seed: uint64(i)})
+	}
+	for i := 0; i < 2; i++ {
+		cs = append(cs, core.CaseDesc{ID: fmt.Sprintf("timeoutdisp/%02d", i), Kind: "timeoutdisp", Seed: uint64(i)})
+	}
+	cs = append(cs, core.CaseDesc{ID: "noloop-parentctx/00", Kind: "noloop-parentctx", Seed: 0})
 	nf := 36
 	if tier == "thorough" {
 		nf = 720
@@ -190,12 +200,141 @@ func runSubsWindow(res *core.CaseResult, c core.CaseDesc) {
 	res.Key("subswin", len(subs))
 }
 
+// runDispHandler: a registered dispose handler uses the machine it is
+// registered on (reads it, registers another handler, subscribes). The
+// disposal has to complete all the same.
+func runDispHandler(res *core.CaseResult, c core.CaseDesc) {
+	type call struct {
+		name string
+		fn   func(m *am.Machine)
+	}
+	calls := []call{
+		{"QueueTick", func(m *am.Machine) { m.QueueTick() }},
+		{"Tracers", func(m *am.Machine) { m.Tracers() }},
+		{"Handlers", func(m *am.Machine) { m.Handlers() }},
+		{"Export", func(m *am.Machine) { _, _, _ = m.Export() }},
+		{"OnDispose", func(m *am.Machine) { m.OnDispose(func(string, context.Context) {}) }},
+		{"WhenQueue", func(m *am.Machine) { m.WhenQueue(am.Result(100)) }},
+		{"Is1", func(m *am.Machine) { m.Is1("A") }},
+		{"Time", func(m *am.Machine) { m.Time(nil) }},
+		{"String", func(m *am.Machine) { _ = m.String() }},
+		{"Add1", func(m *am.Machine) { m.Add1("A", nil) }},
+		{"StateNames", func(m *am.Machine) { _ = m.StateNames() }},
+		{"When1", func(m *am.Machine) { _ = m.When1("A", nil) }},
+	}
+	cl := calls[int(c.Seed)%len(calls)]
+	m := am.New(context.Background(), am.Schema{"A": {}, "B": {}}, &am.Opts{Id: "c13dh", DontLogId: true, DontLogStackTrace: true})
+	m.DisposeTimeout = 100 * time.Millisecond
+	m.Add1("A", nil)
+	var ran, returned atomic.Bool
+	m.OnDispose(func(string, context.Context) {
+		ran.Store(true)
+		cl.fn(m)
+		returned.Store(true)
+	})
+	go m.Dispose()
+	res.Evals++
+	select {
+	case <-m.WhenDisposed():
+	case <-time.After(15 * time.Second):
+		dump := core.StackAll()
+		blocked, active := core.StableBlock(dump)
+		if len(blocked) > 0 && len(active) == 0 || ran.Load() && !returned.Load() {
+			res.Violate("C13/blocked/dispose-handler-calls/"+cl.name, fmt.Sprintf(
+				"a registered dispose handler called %s on its machine: it %s, WhenDisposed is still open 15s after Dispose (the handler runs under the locks doDispose holds)",
+				cl.name, map[bool]string{true: "returned", false: "never returned"}[returned.Load()]), map[string]any{"dump": dump})
+		} else {
+			res.Inconclusive = "the disposal did not complete"
+		}
+		return
+	}
+	if !ran.Load() {
+		res.Violate("C13/dispose-handler-runs=0/disphandler", "the registered dispose handler did not run", nil)
+	}
+	res.Key("disphandler", cl.name)
+}
+
+// runTimeoutDuringDispose: a handler overruns HandlerTimeout while a graceful
+// Dispose is waiting for the queue: the caller of the mutation must get its
+// result, not a panic, and the disposal completes.
+func runTimeoutDuringDispose(res *core.CaseResult, c core.CaseDesc) {
+	m := am.New(context.Background(), am.Schema{"A": {}, "B": {}}, &am.Opts{Id: "c13td", DontLogId: true, DontLogStackTrace: true,
+		HandlerTimeout: 300 * time.Millisecond})
+	m.DisposeTimeout = 100 * time.Millisecond
+	started := make(chan struct{})
+	_, _ = m.HandlersBindMaps(nil, map[string]am.HandlerFinal{"AState": func(*am.Event) {
+		close(started)
+		time.Sleep(1200 * time.Millisecond)
+	}})
+	var panicked atomic.Value
+	done := make(chan struct{})
+	go func() {
+		defer close(done)
+		defer func() {
+			if r := recover(); r != nil {
+				panicked.Store(fmt.Sprint(r))
+			}
+		}()
+		m.Add1("A", nil)
+	}()
+	select {
+	case <-started:
+	case <-time.After(10 * time.Second):
+		res.Inconclusive = "the handler did not start"
+		return
+	}
+	// the disposing flag lands ~150ms into the handler, the drain timeout ~100ms
+	// later, the handler timeout at 300ms
+	time.Sleep(time.Duration(100+50*c.Seed) * time.Millisecond)
+	m.Dispose()
+	res.Evals++
+	select {
+	case <-done:
+	case <-time.After(15 * time.Second):
+		res.Inconclusive = "Add1 did not return"
+		return
+	}
+	if p := panicked.Load(); p != nil {
+		res.Violate("C13/during/panic/Add1/handler-timeout-while-disposing", fmt.Sprintf(
+			"Add1 panicked with %q: its handler overran HandlerTimeout while a graceful Dispose was in progress", p), nil)
+		return
+	}
+	select {
+	case <-m.WhenDisposed():
+	case <-time.After(15 * time.Second):
+		res.Inconclusive = "the disposal did not complete"
+		return
+	}
+	res.Key("timeoutdisp", c.Seed)
+}
+
+// runNoLoopParentCtx: a machine that never had handlers bound, under a parent
+// context that is canceled.
+func runNoLoopParentCtx(res *core.CaseResult, c core.CaseDesc) {
+	parent, cancel := context.WithCancel(context.Background())
+	m := am.New(parent, am.Schema{"A": {}, "B": {}}, &am.Opts{Id: "c13nl", DontLogId: true, DontLogStackTrace: true})
+	defer m.Dispose()
+	m.Add1("A", nil)
+	w := m.When1("B", nil)
+	cancel()
+	res.Evals++
+	select {
+	case <-m.WhenDisposed():
+	case <-time.After(5 * time.Second):
+		res.Violate("C13/whendisposed-open/parentctx/machine-without-handlers", fmt.Sprintf(
+			"5s after the parent context was canceled WhenDisposed is open, a When channel made before is open=%v and Add1 still returns %s: nothing watches the parent context of a machine without a handler loop",
+			!isClosed(w), rec.ResStr(m.Add1("B", nil))), nil)
+		return
+	}
+	res.Key("noloop-parentctx")
+}
+
 // runLateSub: a WhenTime / WhenTicks / WhenQuery call that has passed its
 // disposed check is parked (sub.checked) while the machine is disposed
 // completely, and goes on afterwards. The channel it returns has to be closed.
 func runLateSub(res *core.CaseResult, c core.CaseDesc) {
-	api := []string{"WhenTime1", "WhenTicks", "WhenQuery"}[c.Seed%3]
-	mode := []string{"dispose", "parentctx"}[(c.Seed/3)%2]
+	api := []string{"WhenTime1", "WhenTicks", "WhenQuery", "WhenQueue"}[c.Seed%4]
+	mode := []string{"dispose", "parentctx"}[(c.Seed/4)%2]
 	parent, cancel := context.WithCancel(context.Background())
 	defer cancel()
 	m := am.New(parent, am.Schema{"A": {}, "B": {}}, &am.Opts{Id: "c13ls", DontLogId: true, DontLogStackTrace: true})
@@ -226,6 +365,8 @@ func runLateSub(res *core.CaseResult, c core.CaseDesc) {
 			got <- m.WhenTicks("A", 1<<30, nil)
 		case "WhenQuery":
 			got <- m.WhenQuery(func(am.Clock) bool { return false }, nil)
+		case "WhenQueue":
+			got <- m.WhenQueue(am.Result(1 << 40))
 		}
 	}()
 	select {
@@ -403,6 +544,18 @@ func (eng) Run(c core.CaseDesc, tier string) *core.CaseResult {
 	}
 	if c.Kind == "latesub" {
 		runLateSub(res, c)
+		return res
+	}
+	if c.Kind == "disphandler" {
+		runDispHandler(res, c)
+		return res
+	}
+	if c.Kind == "timeoutdisp" {
+		runTimeoutDuringDispose(res, c)
+		return res
+	}
+	if c.Kind == "noloop-parentctx" {
+		runNoLoopParentCtx(res, c)
 		return res
 	}
 	r := gen.NewRand(c.Seed, 13)
